@@ -267,6 +267,23 @@ let dispatch cmd a =
     let r = if cmd = "lazread_sel" then read_laz d_open d_read (backends_of a.(1)) b
             else read_laz_ns d_open d_read d_rest (backends_of a.(1)) b in
     res out_lz (match r with Ok lz -> Ok (lz_select sel lz) | Err e -> Err e)
+  | "forms" -> (* form(D | 1<P|S> | M<variants>) seekable bytes : what the three _create_laz_backend visit for an argument of that form,
+                  and the variants the reader's loop tries on the file until one constructs *)
+    let form = (let t = a.(0) in
+      if t = "D" then C14Absent
+      else if t.[0] = '1' then C14One (t.[1] = 'P')
+      else C14Many (backends_of (if String.length t = 1 then "-" else String.sub t 1 (String.length t - 1)))) in
+    let b = bytes_of_tok a.(2) in set_pos_of_file b;
+    let show l = if l = [] then "-" else String.concat "" (List.map (fun p -> if p then "P" else "S") l) in
+    let tried = (match dec_header b (bool_of_tok a.(1)) with
+      | Err e -> "err:" ^ err_name e
+      | Ok rh -> (match List.find_opt is_laszip rh.rh_vlrs with
+          | None -> "nolaszip"
+          | Some lz -> show (select_tried d_open (gen_reader_backends form) (bool_of_tok a.(1)) lz.v_data
+                               (drop (int_of_z rh.rh_offset) b)))) in
+    String.concat " " [show (gen_reader_backends form); show (gen_writer_backends form); show (gen_appender_backends form); tried;
+      (match writer_variant form with None -> "-" | Some p -> if p then "P" else "S");
+      tok_of_bool (form_names_a_backend form); tok_of_bool (form_names_serial form)]
   | _ -> "unknown-command " ^ cmd
 
 let () =
